@@ -27,6 +27,11 @@ def with_include(opts):
     return out + [o_func("include", "include")]
 
 
+def with_nest(opts):
+    """a function at the top level whose callback parses a text into another live context"""
+    return [o for o in opts if o["n"].lower() != "nest"] + [o_func("nest", "nest")]
+
+
 HAND["c13"] = with_include([
     o_int("i", 5), o_str("s", "d"), o_list("int", "il", "{1, 2}"),
     o_sec("single", [o_int("x", 1), o_sec("inner", [o_int("z", 1)])]),
@@ -110,6 +115,7 @@ class C13:
             "absolute file and directory - both with a decoy regular file at <search dir>/<that absolute name> -, "
             "self-inclusion, 11-deep chain, bad content, unterminated string; each repeated 1-12 times) followed by the "
             "split text must behave as in a fresh process; afterwards include depth 0, no stream/descriptor/memory left. "
+            "in a third of the cases one item is a function whose callback parses a text into another live context. "
             "Non-trivial = >= 2 files, nesting >= 2 or a failure before the success; distinct = distinct (T, split, history)")
     assumptions = ["unreadable (mode 000) files cannot be produced as root and are skipped",
                    "split points are item boundaries reported by the reference model for the flat text"]
@@ -124,6 +130,16 @@ class C13:
         exp = m.parse(text)
         if not exp["accept"] or exp.get("grey"):
             return Outcome(classes=["base-not-accepted"], sample={"text": text[:200]})
+        if case.get("nest") is not None:
+            # one item of the text is a call whose callback parses into another context (same effect flat or included)
+            schema = with_nest(schema)
+            top = sorted(set(mk["off"] for mk in m.marks if mk["file"] == "[buf]" and mk["level"] == 0))
+            at = top[int(case["nest"] * len(top)) % len(top)] if top else 0
+            text = text[:at] + "nest(9, \"%s\")\n" % ("zz_unknown = 1" if case["nest"] > 0.5 else "# nothing\\n") + text[at:]
+            m = Model(schema, flags)
+            exp = m.parse(text)
+            if not exp["accept"] or exp.get("grey"):
+                return Outcome(classes=["base-not-accepted"], sample={"text": text[:200]})
         marks = [mk for mk in m.marks if mk["file"] == "[buf]"]
         # bodies: consecutive marks with equal (path, level)
         intervals = []
@@ -172,6 +188,8 @@ class C13:
             s.add("mkdir", hx(d))
         s.add("mkdir", hx(os.path.join(base, "adir")))
         s.add("cwd", hx(base))
+        if case.get("nest") is not None:
+            s.add("init", 9, 0, flags)
         names = sorted(files)
         for k, n in enumerate(names):
             d = base if mode in ("cwd", "tilde") else dirs[(k + case.get("salt", 0)) % (1 if mode == "path1" else 3)]
@@ -266,7 +284,7 @@ class C13:
             hist.append(s.add("parse_buf", 4, hx("include(\"%s\")\n" % target)))
         idd = s.add("parse_buf", 4, hx(main))
         dd = s.add("dump", 4)
-        for h in (1, 2, 3, 4):
+        for h in (1, 2, 3, 4) + ((9,) if case.get("nest") is not None else ()):
             s.add("free", h)
         ifin = s.add("allocstat")
         r = get_ex("asan", 10).run(s)
@@ -346,7 +364,7 @@ class C13:
             chain = draw(st.sampled_from([0, 0, 0, 1, 3, 8, 9, 10, 11]))
             return {"schema": sc, "flags": flags, "tokens": toks, "splits": [list(x) for x in splits], "chain": chain,
                     "mode": draw(st.sampled_from(["cwd", "cwd", "abs", "path1", "path3", "path3", "tilde"])), "salt": draw(st.integers(0, 2)),
-                    "decoys": draw(st.booleans()),
+                    "decoys": draw(st.booleans()), "nest": draw(st.one_of(st.none(), st.none(), st.floats(0, 0.999))),
                     "fail_kind": draw(st.sampled_from(FAIL_KINDS)), "fail_repeat": draw(st.sampled_from([0, 0, 1, 2, 11, 12]))}
         return case()
 
